@@ -358,6 +358,10 @@ def otherSites : List (String × String × OpKind × String) := [
   -- operator spellings of atomic operations until the false-alarm round, DESIGN §15).  The assigned-to promise has just given up its
   -- future (`set_value(drop)` claimed it) and receives the token the source's `claim()` exchange took out: an owner token, no data
   ("promise", "operator=", OpKind.store, "_owner"),
+  -- implicit conversions of the atomic `_owner` (seq_cst loads) in `operator bool`, `operator!` and `get_id`: a validity test / the
+  -- identity of the owner token; whoever acts on the answer still has to win `claim()`, nothing of the result is reached through them
+  ("promise", "operator bool", OpKind.load, "_owner"), ("promise", "operator!", OpKind.load, "_owner"),
+  ("promise", "get_id", OpKind.load, "_owner"),
   ("async::co_awaiter", "await_ready", OpKind.load, "_awaiter"), ("async::co_awaiter", "await_suspend", OpKind.store, "_awaiter"),
   ("generator::promise_type", "unblock_sync", OpKind.notify, "_block"), ("generator::promise_type", "next_sync", OpKind.store, "_block"),
   -- the learned frame size of `scheduler::start` (a hint that only sizes an `alloca`; every call works on its own copy, nothing is
